@@ -3,7 +3,7 @@
    outputs; these functions run the model on the same histories (vm_compute)
    and return the cases on which model and implementation differ, with the
    model's outputs. *)
-From CV Require Import Base.Prelude Seq.RollingCounter.
+From CV Require Import Base.Prelude Seq.RollingCounter Seq.TimedCheck.
 
 Fixpoint list_eqb {A} (eqb : A -> A -> bool) (a b : list A) : bool :=
   match a, b with
@@ -26,3 +26,20 @@ Definition rc_mismatches (cs : list rc_case) : list (nat * list out) :=
     let '(id, n, w, start, ops, outs) := c in
     let m := run n w start ops in
     if list_eqb out_eqb m outs then [] else [(id, m)]) cs.
+
+(* ---------- TimedCheck ---------- *)
+Definition optz_eqb (a b : option Z) : bool :=
+  match a, b with None, None => true | Some x, Some y => x =? y | _, _ => false end.
+Definition tcout_eqb (a b : tcout) : bool :=
+  match a, b with
+  | TOBool x p, TOBool y q => Bool.eqb x y && optz_eqb p q
+  | TOArmed x, TOArmed y => x =? y
+  | TONone, TONone => true
+  | _, _ => false
+  end.
+Definition tc_case : Type := nat * Z * Z * list tcop * list tcout.
+Definition tc_mismatches (cs : list tc_case) : list (nat * list tcout) :=
+  flat_map (fun c : tc_case =>
+    let '(id, sleep, budget, ops, outs) := c in
+    let m := tc_run sleep budget ops in
+    if list_eqb tcout_eqb m outs then [] else [(id, m)]) cs.
